@@ -326,6 +326,134 @@ theorem C06_chain_is_fresh_fact :
     Conc.reachableWrites (Conc.analysis Gen.fnNames Gen.items Conc.servingEntries) = [] := by
   decide +kernel
 
+/-! ### non-vacuity (audit): every theorem with hypotheses instantiated on one configuration with
+    two filters at each of the three levels; `Spec.c06Holds` falsified by wrong observations -/
+namespace C06Example
+
+def E0 : ReEnv := ⟨fun _ _ => true, fun _ _ => true⟩
+def rd (id : Nat) (m p : String) : RouteDecl :=
+  { id := id, method := m.toList, relPath := p.toList, consumes := [], produces := [], conds := [], noct := [] }
+def fl (id : Nat) (kind : Serve.FKind) (pre : List Serve.Act := []) (post : List Serve.Act := []) : Serve.Filter :=
+  { id := id, pre := pre, kind := kind, post := post }
+
+/-- `/a` with GET `/{i}` (route 1: two route filters that pass) and GET `/x` (route 2: its first
+    route filter stops); two container filters (the first sets an attribute), two service filters -/
+def cfg : Serve.Cfg :=
+  { routing := { router := .curly, services := [{ id := 0, root := "/a".toList, routes := [rd 1 "GET" "/{i}", rd 2 "GET" "/x"] }] }
+    cfilters := [fl 1 .pass [.setAttr "k".toList "v".toList], fl 2 .pass]
+    svcs := [{ id := 0, filters := [fl 3 .pass [] [.setAttr "back".toList "3".toList], fl 4 .pass] }]
+    routes := [{ id := 1, filters := [fl 5 .pass, fl 6 .pass], script := [.write "one".toList] },
+               { id := 2, filters := [fl 7 .stop [.writeHeader 403], fl 8 .pass], script := [.write "two".toList] }] }
+
+def sr1 : Serve.SReq := { req := { method := "GET".toList, path := "/a/7".toList } }
+def sr2 : Serve.SReq := { req := { method := "GET".toList, path := "/a/x".toList } }
+def sr404 : Serve.SReq := { req := { method := "GET".toList, path := "/b".toList } }
+
+/-- the hypothesis of `C06_each_once_served` (it quantifies over all service and route ids) -/
+theorem distinct : Serve.Chain.DistinctIds cfg := by
+  refine ⟨by decide, ?_, ?_⟩
+  · intro svc
+    by_cases h : svc = 0
+    · subst h; decide
+    · have e0 : (0 == svc) = false := beq_eq_false_iff_ne.mpr (Ne.symm h)
+      have : (cfg.svcs.find? (·.id == svc)) = none := by simp [cfg, List.find?, e0]
+      simp [Serve.svcX, this]
+  · intro rid
+    by_cases h1 : rid = 1
+    · subst h1; decide
+    · by_cases h2 : rid = 2
+      · subst h2; decide
+      · have e1 : (1 == rid) = false := beq_eq_false_iff_ne.mpr (Ne.symm h1)
+        have e2 : (2 == rid) = false := beq_eq_false_iff_ne.mpr (Ne.symm h2)
+        have : (cfg.routes.find? (·.id == rid)) = none := by simp [cfg, List.find?, e1, e2]
+        simp [Serve.routeX, this]
+
+/-- the two chains: six filters that pass around route 1; five filters, the fifth stops, around route 2 -/
+def fs1 : List (Serve.Stage × Serve.Filter) := Serve.allFilters cfg 0 1
+def t1 : Serve.Target := ⟨.handler 1, [.write "one".toList]⟩
+def fs2 : List (Serve.Stage × Serve.Filter) := Serve.allFilters cfg 0 2
+def t2 : Serve.Target := ⟨.handler 2, [.write "two".toList]⟩
+
+/-- what the model does on the three requests: all six filters and the route function; the stop at
+    the first route filter (second route filter and route function do not run); the error path -/
+example :
+    (Serve.serve E0 cfg .dispatch {} sr1).log.map (fun ev => (ev.stage, ev.post)) =
+      [(.cfilter 1, false), (.cfilter 2, false), (.sfilter 3, false), (.sfilter 4, false), (.rfilter 5, false),
+       (.rfilter 6, false), (.handler 1, false), (.rfilter 6, true), (.rfilter 5, true), (.sfilter 4, true),
+       (.sfilter 3, true), (.cfilter 2, true), (.cfilter 1, true)] ∧
+    (Serve.serve E0 cfg .dispatch {} sr2).log.map (fun ev => (ev.stage, ev.post)) =
+      [(.cfilter 1, false), (.cfilter 2, false), (.sfilter 3, false), (.sfilter 4, false), (.rfilter 7, false),
+       (.rfilter 7, true), (.sfilter 4, true), (.sfilter 3, true), (.cfilter 2, true), (.cfilter 1, true)] ∧
+    (Serve.serve E0 cfg .dispatch {} sr404).log.map (fun ev => (ev.stage, ev.post)) =
+      [(.cfilter 1, false), (.cfilter 2, false), (.errorWriter, false), (.cfilter 2, true), (.cfilter 1, true)] := by
+  decide
+
+/-- `C06_closed_form`, `C06_closed_form_no_panic`: hypotheses `hk`, `hp`, `ht` on both chains -/
+example := C06_closed_form fs1 t1 {} (by decide) (by decide) (by decide)
+example := C06_closed_form fs2 t2 {} (by decide) (by decide) (by decide)
+example := C06_closed_form_no_panic fs1 t1 {} (by decide) (by decide) (by decide)
+example := C06_closed_form_no_panic fs2 t2 {} (by decide) (by decide) (by decide)
+/-- `C06_target_iff`, both sides inhabited: no filter of `fs1` stops, so the route function runs;
+    one of `fs2` stops, so it does not -/
+example : (t1.stage, false) ∈ (Spec.chainLog fs1 t1 {}).1.map (fun ev => (ev.stage, ev.post)) :=
+  (C06_target_iff fs1 t1 {} (by decide) (by decide) (by decide) (by decide)).mpr (by decide)
+example : (t2.stage, false) ∉ (Spec.chainLog fs2 t2 {}).1.map (fun ev => (ev.stage, ev.post)) := fun h =>
+  absurd ((C06_target_iff fs2 t2 {} (by decide) (by decide) (by decide) (by decide)).mp h) (by decide)
+/-- `C06_noPanic` -/
+example := C06_noPanic [.setAttr "k".toList "v".toList, .write "x".toList] [] (by decide)
+/-- `C06_each_once`, `C06_each_once_served` -/
+example := C06_each_once fs1 t1 {} (by decide) (by decide)
+example := C06_each_once_served false E0 cfg distinct .dispatch {} sr1
+example := C06_each_once_served false E0 cfg distinct .serveDispatch {} sr2
+/-- `C06_served_labels`, `C06_routed_chain`: the chain of the routed request -/
+example := C06_served_labels E0 cfg .dispatch sr1 fs1 t1
+  { params := [("i".toList, "7".toList)], selPath := "/a/{i}".toList } (by decide)
+example := C06_routed_chain E0 cfg sr1 0 1 [("i".toList, "7".toList)] "sel" rfl (by decide)
+/-- `C06_error_path`, `C06_error_path_entry` -/
+example := C06_error_path E0 cfg {} sr404 404 none "404-nosvc" rfl (by decide)
+example := C06_error_path_entry E0 cfg .serveDispatch (.inr rfl) {} sr404 404 none "404-nosvc" rfl (by decide)
+/-- `C06_handle_with_filter_path` -/
+example := C06_handle_with_filter_path E0 cfg .muxHandleF (.inl rfl) {} sr1
+/-- `C06_propagation_pass / replace / middle` (a filter whose first part sets an attribute) -/
+example := C06_propagation_pass (.cfilter 1) (fl 1 .pass [.setAttr "k".toList "v".toList]) fs1 t1 {} rfl (by decide)
+example := C06_propagation_replace (.sfilter 3) (fl 3 .replace [.setAttr "k".toList "v".toList]) fs1 t1 {} rfl (by decide)
+example := C06_propagation_middle (.rfilter 5) (fl 5 .middle [.setAttr "k".toList "v".toList]) fs1 t1 {} rfl (by decide)
+
+/-- what the model answers to the three requests, as observations -/
+def o1 : Spec.Obs := Spec.obsOf (Serve.serve E0 cfg .dispatch {} sr1)
+def o2 : Spec.Obs := Spec.obsOf (Serve.serve E0 cfg .dispatch {} sr2)
+def o404 : Spec.Obs := Spec.obsOf (Serve.serve E0 cfg .dispatch {} sr404)
+
+/-- `Spec.c06Holds` is not trivially true.  On the routed request it is falsified by: the events in
+    reverse order; the route function missing; a service filter missing; a filter coming back twice;
+    attributes not handed on; parameters not visible; the selected path not visible.  On the request
+    stopped by a route filter: by the log of a request that was not stopped, and by a route function
+    that ran all the same.  On the unroutable request: by a log with service and route filters, and
+    by container filters that did not run. -/
+example :
+    Spec.c06Holds E0 cfg .dispatch sr1 o1 = true ∧
+    Spec.c06Holds E0 cfg .dispatch sr1 { o1 with log := o1.log.reverse } = false ∧
+    Spec.c06Holds E0 cfg .dispatch sr1 { o1 with log := o1.log.filter (fun ev => ev.stage != .handler 1) } = false ∧
+    Spec.c06Holds E0 cfg .dispatch sr1 { o1 with log := o1.log.filter (fun ev => ev.stage != .sfilter 4) } = false ∧
+    Spec.c06Holds E0 cfg .dispatch sr1 { o1 with log := o1.log ++ [⟨.cfilter 1, true, [], [], [], []⟩] } = false ∧
+    Spec.c06Holds E0 cfg .dispatch sr1 { o1 with log := o1.log.map (fun ev => { ev with attrs := [] }) } = false ∧
+    Spec.c06Holds E0 cfg .dispatch sr1 { o1 with log := o1.log.map (fun ev => { ev with params := [] }) } = false ∧
+    Spec.c06Holds E0 cfg .dispatch sr1 { o1 with log := o1.log.map (fun ev => { ev with selPath := [] }) } = false ∧
+    Spec.c06Holds E0 cfg .dispatch sr2 o2 = true ∧
+    Spec.c06Holds E0 cfg .dispatch sr2 o1 = false ∧
+    Spec.c06Holds E0 cfg .dispatch sr2 { o2 with log := o2.log ++ [⟨.handler 2, false, [], [], [], []⟩] } = false ∧
+    Spec.c06Holds E0 cfg .dispatch sr404 o404 = true ∧
+    Spec.c06Holds E0 cfg .dispatch sr404 o2 = false ∧
+    Spec.c06Holds E0 cfg .dispatch sr404 { o404 with log := [] } = false := by
+  decide
+
+/-- `C06_fresh` on a history of three requests starting from a used ledger -/
+example : (Serve.serveSeq E0 cfg .dispatch { acquired := 5, released := 5 } [sr1, sr2, sr404]).map (·.log) =
+    [sr1, sr2, sr404].map (fun r => (Serve.serve E0 cfg .dispatch {} r).log) :=
+  C06_fresh E0 cfg .dispatch _ _
+
+end C06Example
+
 /-! The frame condition (Lemmas/StateShape.lean): the code has exactly the state this property's model
     accounts for — no further package-level variable, struct type or field; constants as modelled. -/
 -- also: Restful.StateShape.globals_shape
